@@ -67,6 +67,11 @@ RECTIFIED = {("experiment", "event count"), ("experiment", "run identifier"),
              ("fluorescence", "channel count")}
 
 F_NONSLICE = "C02-nonsliceable-source"
+F_UINT = "C02-uint-cast-negative"
+# features the writer stores as unsigned integers (writer.FEATURES_UINT32/64)
+UINT_FEATS = {"fl1_max", "fl1_npeaks", "fl2_max", "fl2_npeaks", "fl3_max",
+              "fl3_npeaks", "index", "ml_class", "nevents", "frame",
+              "index_online"}
 F_SHORT = "C02-short-features-indexerror"
 
 
@@ -407,6 +412,16 @@ def run_export_case(case, workdir):
             fails.append("exported file cannot be read back: %r" % (e,))
         if fails:
             res["fail"] = "; ".join(fails[:4])
+            # the writer casts some features to unsigned integers: negative
+            # source values (tdms fixture: fl2_max = -17) do not survive
+            lossy = [f for f in uniq if f in UINT_FEATS and kind_of(f) == 0
+                     and len(exp_idx) and
+                     (np.asarray(ds[f][:])[exp_idx] < 0).any()]
+            if lossy and all(any(("feature %s " % f) in m or
+                                 ("feature %s:" % f) in m for f in lossy)
+                             for m in fails):
+                res["finding"] = F_UINT
+                res["coq"] = None      # the model keeps values unchanged
         nons = sum(len(exp_idx) for f in uniq if kind_of(f) >= 2)
         res["nontrivial"] = bool(nons >= 1 or (uniq and len(exp_idx) >= 2))
         res["info"] = dict(nsel=int(len(exp_idx)), fmt=ds.format)
